@@ -907,6 +907,10 @@ func genSharedWrites(repo string) (string, error) {
 	if err != nil {
 		return "", err
 	}
+	poolUses, putAfterGo, err := swPoolFlow(m, rtPath)
+	if err != nil {
+		return "", err
+	}
 
 	var b strings.Builder
 	b.WriteString("namespace ScriggoV.Gen.SharedWrites\n\n")
@@ -934,6 +938,23 @@ func genSharedWrites(repo string) (string, error) {
 	swEmitSites(&b, "callableAllocs", "every composite literal of type callable", allocs)
 	swEmitSites(&b, "generalStores", "every store into Function.Values.General in the module (kind store) and every call of a function containing one (kind caller; lhs = the stored argument)", stores)
 	fmt.Fprintf(&b, "/-- callNative: the loop `for i := range nunIn` that follows `args = fn.argsPool.Get()` writes args[i] on every path -/\ndef argsPoolFilledOnEveryPath : Bool := %v\n\n", fill)
+	b.WriteString("/-- one use of a pooled argument slice: function, kind (Get, Put, go = passed to a go statement, defer, call = passed to a\ncall, escape = stored or returned), the branches it is in, source text -/\nstructure PoolUse where\n  fn : String\n  kind : String\n  ctx : String\n  text : String\nderiving DecidableEq, Repr\n\n")
+	b.WriteString("/-- every use, in internal/runtime, of a sync.Pool field `argsPool` and of the variable that received `argsPool.Get()`, in source order -/\ndef argsPoolUses : List PoolUse := [")
+	for i, u := range poolUses {
+		if i > 0 {
+			b.WriteString(",")
+		}
+		fmt.Fprintf(&b, "\n  ⟨%s, %s, %s, %s⟩", swLeanStr(u.fn), swLeanStr(u.kind), swLeanStr(u.ctx), swLeanStr(u.text))
+	}
+	b.WriteString("]\n\n")
+	b.WriteString("/-- (go statement that received the pooled slice, Put of that pool) pairs such that the Put can execute after the go\nstatement (later in the same or an enclosing statement list, in the same loop, or deferred) -/\ndef putReachableAfterGo : List (String × String) := [")
+	for i, pr := range putAfterGo {
+		if i > 0 {
+			b.WriteString(", ")
+		}
+		fmt.Fprintf(&b, "(%s, %s)", swLeanStr(pr[0]), swLeanStr(pr[1]))
+	}
+	b.WriteString("]\n\n")
 	b.WriteString("end ScriggoV.Gen.SharedWrites\n")
 	return b.String(), nil
 }
@@ -1014,4 +1035,232 @@ func swArgsPoolFill(m *swLoader, rtPath string) (bool, error) {
 		return false
 	}
 	return always(loop.Body), nil
+}
+
+type swPoolUse struct{ fn, kind, ctx, text string }
+
+// swPoolFlow follows, in every function of internal/runtime that calls `<x>.argsPool.Get()`, the
+// variable that receives the pooled slice: every statement that uses the pool or the variable (other
+// than indexing it) with the branches it is nested in, and which Put statements can execute after
+// a go statement that was handed the slice (structured reachability: the statements that follow
+// in the same list or in an enclosing list, the whole body of an enclosing loop, any deferred Put).
+func swPoolFlow(m *swLoader, rtPath string) (uses []swPoolUse, putAfterGo [][2]string, err error) {
+	type frame struct {
+		list []ast.Stmt
+		idx  int
+		loop bool
+	}
+	type rec struct {
+		st     ast.Stmt
+		kind   string
+		frames []frame
+	}
+	for _, f := range m.files[rtPath] {
+		for _, d := range f.Decls {
+			fd, ok := d.(*ast.FuncDecl)
+			if !ok || fd.Body == nil || !strings.Contains(swText(m.fset, fd.Body), "argsPool.Get()") {
+				continue
+			}
+			name := swFuncName(fd, m.fset)
+			// the variable that receives the slice
+			slice := ""
+			ast.Inspect(fd.Body, func(n ast.Node) bool {
+				if as, ok := n.(*ast.AssignStmt); ok && len(as.Lhs) == 1 && len(as.Rhs) == 1 && strings.Contains(swText(m.fset, as.Rhs[0]), "argsPool.Get()") {
+					if id, ok := as.Lhs[0].(*ast.Ident); ok {
+						if slice != "" && slice != id.Name {
+							err = fmt.Errorf("shape not recognised: %s: two variables receive argsPool.Get()", name)
+						}
+						slice = id.Name
+					} else {
+						err = fmt.Errorf("shape not recognised: %s: argsPool.Get() not assigned to a variable: %s", name, swText(m.fset, as))
+					}
+				}
+				return true
+			})
+			if err != nil {
+				return nil, nil, err
+			}
+			if slice == "" {
+				return nil, nil, fmt.Errorf("shape not recognised: %s: result of argsPool.Get() is not assigned to a variable", name)
+			}
+			// does expression e mention the bare variable (not only indexed)?
+			bare := func(n ast.Node) bool {
+				found := false
+				ast.Inspect(n, func(x ast.Node) bool {
+					switch y := x.(type) {
+					case *ast.IndexExpr:
+						if id, ok := y.X.(*ast.Ident); ok && id.Name == slice {
+							ast.Inspect(y.Index, func(z ast.Node) bool {
+								if id, ok := z.(*ast.Ident); ok && id.Name == slice {
+									found = true
+								}
+								return true
+							})
+							return false
+						}
+					case *ast.Ident:
+						if y.Name == slice {
+							found = true
+						}
+					}
+					return true
+				})
+				return found
+			}
+			classify := func(st ast.Stmt) string {
+				t := swText(m.fset, st)
+				switch x := st.(type) {
+				case *ast.GoStmt:
+					if bare(x.Call) || strings.Contains(t, "argsPool") {
+						return "go"
+					}
+				case *ast.DeferStmt:
+					if bare(x.Call) || strings.Contains(t, "argsPool") {
+						return "defer"
+					}
+				case *ast.AssignStmt:
+					if strings.Contains(t, "argsPool.Get()") {
+						return "Get"
+					}
+					if strings.Contains(t, "argsPool.Put(") {
+						return "Put"
+					}
+					for _, l := range x.Lhs {
+						if id, ok := l.(*ast.Ident); ok && id.Name == slice {
+							if len(x.Rhs) == 1 && swText(m.fset, x.Rhs[0]) != "nil" {
+								return "escape" // re-assigned from something else
+							}
+							return ""
+						}
+					}
+					for _, r := range x.Rhs {
+						if c, ok := r.(*ast.CallExpr); ok && bare(c) {
+							return "call"
+						}
+						if bare(r) {
+							return "escape"
+						}
+					}
+				case *ast.ExprStmt:
+					if strings.Contains(t, "argsPool.Put(") {
+						return "Put"
+					}
+					if strings.Contains(t, "argsPool") {
+						return "pool"
+					}
+					if bare(x.X) {
+						return "call"
+					}
+				case *ast.ReturnStmt, *ast.SendStmt:
+					if bare(st) {
+						return "escape"
+					}
+				}
+				return ""
+			}
+			var recs []rec
+			var ctx []string
+			var walkList func(list []ast.Stmt, frames []frame, loop bool)
+			var walkStmt func(st ast.Stmt, frames []frame)
+			walkList = func(list []ast.Stmt, frames []frame, loop bool) {
+				for i, st := range list {
+					walkStmt(st, append(append([]frame(nil), frames...), frame{list, i, loop}))
+				}
+			}
+			walkStmt = func(st ast.Stmt, frames []frame) {
+				push := func(c string, f func()) { ctx = append(ctx, c); f(); ctx = ctx[:len(ctx)-1] }
+				switch x := st.(type) {
+				case *ast.BlockStmt:
+					walkList(x.List, frames, false)
+				case *ast.IfStmt:
+					if x.Init != nil {
+						walkStmt(x.Init, frames)
+					}
+					c := swText(m.fset, x.Cond)
+					if bare(x.Cond) && !strings.Contains(c, slice+" != nil") && !strings.Contains(c, slice+" == nil") {
+						recs = append(recs, rec{st, "escape", frames})
+					}
+					push("if "+c+" then", func() { walkList(x.Body.List, frames, false) })
+					if x.Else != nil {
+						push("if "+c+" else", func() { walkStmt(x.Else, frames) })
+					}
+				case *ast.ForStmt:
+					push("for", func() { walkList(x.Body.List, frames, true) })
+				case *ast.RangeStmt:
+					push("for", func() { walkList(x.Body.List, frames, true) })
+				case *ast.SwitchStmt:
+					for _, cl := range x.Body.List {
+						cc := cl.(*ast.CaseClause)
+						push("case", func() { walkList(cc.Body, frames, false) })
+					}
+				case *ast.TypeSwitchStmt:
+					for _, cl := range x.Body.List {
+						cc := cl.(*ast.CaseClause)
+						push("case", func() { walkList(cc.Body, frames, false) })
+					}
+				case *ast.SelectStmt:
+					for _, cl := range x.Body.List {
+						cc := cl.(*ast.CommClause)
+						push("case", func() { walkList(cc.Body, frames, false) })
+					}
+				case *ast.LabeledStmt:
+					walkStmt(x.Stmt, frames)
+				default:
+					if k := classify(st); k != "" {
+						recs = append(recs, rec{st, k, frames})
+						uses = append(uses, swPoolUse{name, k, strings.Join(ctx, "; "), swText(m.fset, st)})
+					}
+				}
+			}
+			walkList(fd.Body.List, nil, false)
+			// closures are not followed: a use inside a function literal would be missed
+			lits := 0
+			ast.Inspect(fd.Body, func(n ast.Node) bool {
+				if fl, ok := n.(*ast.FuncLit); ok && (bare(fl.Body) || strings.Contains(swText(m.fset, fl.Body), "argsPool")) {
+					lits++
+				}
+				return true
+			})
+			if lits > 0 {
+				return nil, nil, fmt.Errorf("shape not recognised: %s: the pooled slice is used inside a function literal", name)
+			}
+			contains := func(list []ast.Stmt, target ast.Stmt) bool {
+				found := false
+				for _, st := range list {
+					ast.Inspect(st, func(n ast.Node) bool {
+						if n == ast.Node(target) {
+							found = true
+						}
+						return !found
+					})
+				}
+				return found
+			}
+			for _, g := range recs {
+				if g.kind != "go" {
+					continue
+				}
+				for _, p := range recs {
+					reach := false
+					switch p.kind {
+					case "defer":
+						reach = strings.Contains(swText(m.fset, p.st), "argsPool.Put(")
+					case "Put":
+						for _, fr := range g.frames {
+							if contains(fr.list[fr.idx+1:], p.st) || (fr.loop && contains(fr.list, p.st)) {
+								reach = true
+							}
+						}
+					}
+					if reach {
+						putAfterGo = append(putAfterGo, [2]string{swText(m.fset, g.st), swText(m.fset, p.st)})
+					}
+				}
+			}
+		}
+	}
+	if len(uses) == 0 {
+		return nil, nil, fmt.Errorf("shape not recognised: no function of internal/runtime calls argsPool.Get()")
+	}
+	return uses, putAfterGo, nil
 }
